@@ -121,7 +121,9 @@ def run_case(case):
         rm = case["remove_absence"]
         exp_duration = T - len(absn) if rm else T
         I.set_order(I.default_order(parent))
-        pm = B.build(parent, task_overrides={case["pos"]: (ns.BaseSubProjectTask, {})})
+        # half of the tasks are constructed with the path of their result file
+        ctor_kw = {"file_path": path} if case["i"] % 4 in (1, 2) else {}
+        pm = B.build(parent, task_overrides={case["pos"]: (ns.BaseSubProjectTask, ctor_kw)})
         pm.project.unit_timedelta = datetime.timedelta(seconds=case["parent_unit"])
         st = pm.tasks[case["pos"]]
         if case["i"] % 2 == 1:
@@ -144,6 +146,28 @@ def run_case(case):
         if st.unit_timedelta != datetime.timedelta(seconds=case["sub_unit"]):
             res.violate("C20", "C20/unit-differs", "unit_timedelta %r, sub-project unit %r s" % (st.unit_timedelta, case["sub_unit"]))
         st.set_work_amount_progress_of_unit_step_time(pm.project.unit_timedelta)
+        if case["i"] % 4 == 1:
+            # the configured parent project goes through a JSON file (the result file still exists) before it runs
+            from .history import Hist
+            hp = Hist(parent, order=False, model=pm)
+            e = hp.do(["saveload"])
+            if e is not None:
+                res.violate("C20", "C20/parent-save-load-raises:%s:%s" % (e["type"], e["where"]), "write/read of the configured parent raised %s: %s" % (e["type"], e["msg"]))
+                return res
+            q = hp.p
+            st2 = [t for t in q.workflow.task_list if t.ID == st.ID][0]
+            res.count("C20.parents_through_json")
+            for nm in ("default_work_amount", "unit_timedelta", "work_amount_progress_of_unit_step_time"):
+                if getattr(st2, nm, None) != getattr(st, nm, None):
+                    res.violate("C20", "C20/configuration-changed-by-parent-save-load:%s" % nm,
+                                "after write/read of the parent project the sub-project task's %s is %r, it was configured to %r" % (nm, getattr(st2, nm, None), getattr(st, nm, None)))
+                    return res
+
+            class _PM(object):
+                project = q
+                tasks = None
+            pm = _PM()
+            st = st2
         ratio = case["sub_unit"] / float(case["parent_unit"])
         # a task of zero work amount still passes through one WORKING step (state machine of C02)
         exp_steps = max(1, int(math.ceil(exp_duration * ratio - 1e-9)))
